@@ -281,7 +281,7 @@ func TestC09(t *testing.T) {
 				m.Violation("out-of-bounds-write:"+path, w)
 			}
 			if ctr != c.ctr {
-				m.Count("counter_block_modified_by_call:"+path, 1) // recorded, not judged
+				m.Violation("counter-block-modified:"+path, wit(path, out[:c.n]))
 			}
 			if key != c.key {
 				m.Violation("key-modified:"+path, wit(path, out[:c.n]))
@@ -299,6 +299,19 @@ func TestC09(t *testing.T) {
 		observe("generic-hook")
 		if !bytes.Equal(gout[:c.n], want) {
 			m.Violation("keystream-mismatch:generic-hook:"+c.ctrClass(), wit("generic-hook", gout[:c.n]))
+		}
+		if ctr != c.ctr || key != c.key || ((layout == 1 || layout == 2) && !bytes.Equal(gin, msg)) {
+			m.Violation("input-modified:generic-hook", wit("generic-hook", gout[:c.n]))
+		}
+		// the earlier call's output and inputs must have survived this one
+		if fault == nil && pv == nil {
+			if !bytes.Equal(out[:c.n], want) {
+				m.Violation("earlier-output-changed-by-later-call:"+path, wit(path, out[:c.n]))
+			}
+			if e := ar.checkFrame(layout, msg, in, out); e != "" {
+				m.Violation("earlier-frame-changed-by-later-call:"+path, wit(path, out[:c.n]))
+			}
+			m.Count("earlier_outputs_reverified", 1)
 		}
 		if fault == nil && pv == nil && !bytes.Equal(gout[:c.n], out[:c.n]) {
 			m.Count("asm_generic_disagreements", 1)
